@@ -40,10 +40,15 @@ type input struct {
 	Prog map[string][]Kid `json:"prog"`
 	Spin int              `json:"spin"`
 	Seed uint64           `json:"seed"`
+	// controller goroutine (Pause / Schedule / Continue, what a monitor does)
+	Pre      []Ev   `json:"pre,omitempty"`      // scheduled while paused BEFORE Run starts (Run is started under the pause)
+	Mid      int    `json:"mid,omitempty"`      // number of pause / inject at CurrentTime() / continue cycles during the run
+	MidSec   bool   `json:"midsec,omitempty"`   // every third cycle also injects a secondary
+	Sentinel uint64 `json:"sentinel,omitempty"` // id of a far-future event; injections stop once it has started
 }
 
 type label struct {
-	Kind string `json:"k"` // S E X(sched)
+	Kind string `json:"k"` // S E X(sched) I(injected by the controller)
 	A    Ev     `json:"a"`
 	B    *Ev    `json:"b,omitempty"`
 }
@@ -131,6 +136,35 @@ func (l *logger) add(x label) {
 	l.mu.Unlock()
 }
 
+func (l *logger) started(id uint64) bool {
+	l.mu.Lock()
+	defer l.mu.Unlock()
+	for _, x := range l.evs {
+		if x.Kind == "S" && x.A.ID == id {
+			return true
+		}
+	}
+	return false
+}
+
+// runBlockedOnPauseLock: the goroutine executing ParallelEngine.Run is parked in sync.Mutex.Lock
+// (not inside an event queue's own mutex).
+func runBlockedOnPauseLock() bool {
+	buf := make([]byte, 1<<20)
+	n := runtime.Stack(buf, true)
+	for _, g := range strings.Split(string(buf[:n]), "\n\n") {
+		nl := strings.IndexByte(g, '\n')
+		if nl < 0 {
+			continue
+		}
+		if strings.Contains(g[:nl], "sync.Mutex.Lock") && strings.Contains(g[nl:], "(*ParallelEngine).Run") &&
+			!strings.Contains(g[nl:], "EventQueueImpl") {
+			return true
+		}
+	}
+	return false
+}
+
 type event struct {
 	ev Ev
 }
@@ -203,18 +237,58 @@ func execute(in input) obs {
 		eng.Schedule(event{e})
 	}
 	done := make(chan string, 1)
-	go func() {
-		msg := ""
-		func() {
-			defer func() {
-				if r := recover(); r != nil {
-					msg = fmt.Sprint(r)
-				}
+	runIt := func() {
+		go func() {
+			msg := ""
+			func() {
+				defer func() {
+					if r := recover(); r != nil {
+						msg = fmt.Sprint(r)
+					}
+				}()
+				_ = eng.Run()
 			}()
-			_ = eng.Run()
+			done <- msg
 		}()
-		done <- msg
-	}()
+	}
+	if len(in.Pre) > 0 {
+		// Pause, start Run under the pause, wait (stack poll, no sleep) until the Run
+		// goroutine is blocked on the pause lock, inject, Continue.
+		eng.Pause()
+		runIt()
+		deadline := time.Now().Add(10 * time.Second)
+		for !runBlockedOnPauseLock() && time.Now().Before(deadline) {
+			runtime.Gosched()
+		}
+		for _, c := range in.Pre {
+			eng.Schedule(event{c})
+			lg.add(label{Kind: "I", A: c})
+		}
+		eng.Continue()
+	} else {
+		runIt()
+	}
+	if in.Mid > 0 {
+		r := hx.NewRand(in.Seed ^ 0xabcdef)
+		for k := 0; k < in.Mid; k++ {
+			busy(r.Intn(20000))
+			eng.Pause()
+			if lg.started(in.Sentinel) {
+				eng.Continue()
+				break
+			}
+			t := uint64(eng.CurrentTime())
+			c := Ev{ID: 1000000 + uint64(2*k), Time: t, Sec: false}
+			eng.Schedule(event{c})
+			lg.add(label{Kind: "I", A: c})
+			if in.MidSec && k%3 == 0 {
+				c2 := Ev{ID: 1000001 + uint64(2*k), Time: t, Sec: true}
+				eng.Schedule(event{c2})
+				lg.add(label{Kind: "I", A: c2})
+			}
+			eng.Continue()
+		}
+	}
 	o := obs{}
 	select {
 	case m := <-done:
@@ -273,6 +347,65 @@ func hasCorner(in input) bool {
 	return false
 }
 
+// siblingCorner: in the (schedule-independent) round structure of the input, some
+// SECONDARY round has at least two members and one of them schedules a primary at
+// the same instant — the only shape in which the known corner can occur.  A lone
+// secondary that schedules a same-instant primary is NOT in the classifier.
+func siblingCorner(in input) bool {
+	type pe struct {
+		id, t uint64
+		sec   bool
+	}
+	var pending []pe
+	for _, e := range in.Init {
+		pending = append(pending, pe{e.ID, e.Time, e.Sec})
+	}
+	for _, e := range in.Pre {
+		pending = append(pending, pe{e.ID, e.Time, e.Sec})
+	}
+	for guard := 0; len(pending) > 0 && guard < 100000; guard++ {
+		const inf = ^uint64(0)
+		pt, st := inf, inf
+		for _, e := range pending {
+			if e.sec && e.t < st {
+				st = e.t
+			}
+			if !e.sec && e.t < pt {
+				pt = e.t
+			}
+		}
+		t, sec := pt, false
+		if !(pt <= st) {
+			t, sec = st, true
+		}
+		var members, rest []pe
+		for _, e := range pending {
+			if e.t == t && e.sec == sec {
+				members = append(members, e)
+			} else {
+				rest = append(rest, e)
+			}
+		}
+		if len(members) == 0 {
+			return false
+		}
+		zeroPrim := false
+		for _, m := range members {
+			for _, k := range in.Prog[fmt.Sprint(m.id)] {
+				rest = append(rest, pe{k.ID, m.t + k.Delay, k.Sec})
+				if sec && !k.Sec && k.Delay == 0 {
+					zeroPrim = true
+				}
+			}
+		}
+		if sec && zeroPrim && (len(members) >= 2 || in.Mid > 0) {
+			return true
+		}
+		pending = rest
+	}
+	return false
+}
+
 func run(raw json.RawMessage) (hx.Case, error) {
 	var in input
 	if err := hx.UJ(raw, &in); err != nil {
@@ -299,12 +432,17 @@ func run(raw json.RawMessage) (hx.Case, error) {
 	}
 	tr := make([]string, len(o.Trace))
 	sameInstant := false
+	nInj := 0
 	for i, l := range o.Trace {
 		switch l.Kind {
 		case "S":
 			tr[i] = hx.App("LStart", coqEv(l.A))
 		case "E":
 			tr[i] = hx.App("LEnd", coqEv(l.A))
+		case "I":
+			tr[i] = hx.App("LInject", coqEv(l.A))
+			nInj++
+			sameInstant = true
 		default:
 			tr[i] = hx.App("LSched", coqEv(l.A), coqEv(*l.B))
 			if l.B.Time == l.A.Time {
@@ -313,8 +451,12 @@ func run(raw json.RawMessage) (hx.Case, error) {
 		}
 	}
 	c := hx.Case{Obs: o}
-	c.Coq = hx.App("mk_case", hx.Nat(in.NQ), hx.L(inits), hx.L(progTerms), hx.Nat(nev+2), hx.L(tr),
-		hx.B(o.Done), hx.B(o.Panic != ""))
+	pres := make([]string, len(in.Pre))
+	for i, e := range in.Pre {
+		pres[i] = coqEv(e)
+	}
+	c.Coq = hx.App("mk_case", hx.Nat(in.NQ), hx.L(inits), hx.L(progTerms), hx.Nat(nev+nInj+len(in.Pre)+2),
+		hx.L(pres), hx.B(in.Mid > 0), hx.L(tr), hx.B(o.Done), hx.B(o.Panic != ""))
 	c.Tags = []string{fmt.Sprintf("gomaxprocs:%d", in.NQ)}
 	if sameInstant {
 		c.Tags = append(c.Tags, "same-instant-scheduling")
@@ -328,9 +470,18 @@ func run(raw json.RawMessage) (hx.Case, error) {
 		c.Tags = append(c.Tags, "events:>64")
 	}
 	c.Nontrivial = nev >= 3 && sameInstant
+	if len(in.Pre) > 0 {
+		c.Tags = append(c.Tags, "controller:inject-before-run")
+	}
+	if in.Mid > 0 {
+		c.Tags = append(c.Tags, fmt.Sprintf("controller:mid-run-injections=%d", nInj))
+	}
 	if hasCorner(in) {
-		c.Known = "sibling_secondary_corner"
 		c.Tags = append(c.Tags, "shape:secondary-schedules-same-instant-primary")
+	}
+	if siblingCorner(in) {
+		c.Known = "sibling_secondary_corner"
+		c.Tags = append(c.Tags, "shape:sibling-secondaries-with-same-instant-primary")
 	}
 	return c, nil
 }
@@ -389,6 +540,55 @@ func gen(r *hx.Rand, tier string) []json.RawMessage {
 			Prog: map[string][]Kid{"1": {{4, 0, false}, {5, 0, true}}, "4": {{6, 0, false}, {7, 10, false}}, "6": {{8, 0, true}}}, Spin: 500, Seed: r.U64()})
 		add(input{NQ: nq, Init: []Ev{{1, 0, true}}, Prog: map[string][]Kid{}, Seed: 1})
 		add(input{NQ: nq, Init: nil, Prog: map[string][]Kid{}, Seed: 1})
+	}
+	// directed: a controller goroutine (what a monitor does) pauses the engine, schedules events for the instant
+	// whose secondary round is next, and continues.  (a) deterministic: Pause before Run, Run started under the
+	// pause and observed blocked on the pause lock, then Schedule + Continue.
+	for _, nq := range procs {
+		add(input{NQ: nq, Init: []Ev{{1, 10, true}}, Prog: map[string][]Kid{}, Pre: []Ev{{50, 10, false}}, Spin: 300, Seed: r.U64()})
+		add(input{NQ: nq, Init: []Ev{{1, 10, true}, {2, 10, true}, {3, 20, false}},
+			Prog: map[string][]Kid{"1": {{4, 10, false}}, "50": {{6, 0, true}}},
+			Pre:  []Ev{{50, 10, false}, {51, 10, true}, {52, 10, false}}, Spin: 300, Seed: r.U64()})
+	}
+	// (b) a lone secondary that schedules both a primary and a further secondary for its own instant, over a
+	// chain of instants: the primary must run before the further secondary (no sibling: not the known corner)
+	for _, nq := range []int{1, 4} {
+		in := input{NQ: nq, Prog: map[string][]Kid{}, Spin: 300, Seed: r.U64()}
+		in.Init = []Ev{{1, 10, true}}
+		id := uint64(1)
+		for k := 0; k < 8; k++ {
+			// secondary `id` -> primary id+1 (same instant), secondary id+2 (same instant); id+2 -> secondary id+3 at the next instant
+			in.Prog[fmt.Sprint(id)] = []Kid{{id + 1, 0, false}, {id + 2, 0, true}}
+			in.Prog[fmt.Sprint(id+2)] = []Kid{{id + 3, 10, true}}
+			id += 3
+		}
+		add(in)
+	}
+	// (c) pauses at arbitrary moments of a long run: inject a primary (and sometimes a secondary) at CurrentTime()
+	nMid := 3
+	if tier == "thorough" {
+		nMid = 24
+	}
+	for i := 0; i < nMid; i++ {
+		in := input{NQ: procs[1+i%3], Prog: map[string][]Kid{}, Spin: r.Range(500, 3000), Seed: r.U64(),
+			Mid: r.Range(15, 40), MidSec: i%2 == 0, Sentinel: 999999}
+		n := r.Range(60, 140)
+		in.Init = []Ev{{1, 10, false}, {999999, 1 << 40, false}}
+		cur, next := uint64(1), uint64(2)
+		for k := 0; k < n; k++ {
+			// primary cur -> a secondary of the same instant and the primary of the next instant; sometimes an extra same-instant primary
+			secID := next
+			nxt := next + 1
+			next += 2
+			ks := []Kid{{secID, 0, true}, {nxt, 10, false}}
+			if r.Chance(1, 3) {
+				ks = append(ks, Kid{next, 0, false})
+				next++
+			}
+			in.Prog[fmt.Sprint(cur)] = ks
+			cur = nxt
+		}
+		add(in)
 	}
 	for i := 0; i < nSmall; i++ {
 		n := r.Range(2, 30)
@@ -460,7 +660,7 @@ func init() {
 			"instant, or 10/20 ps later, primary or secondary, busy-loops a random time) run on the real ParallelEngine with GOMAXPROCS in " +
 			"{1,2,4,16} under the race detector, each run in a subprocess of the harness (a crash or a race report is an observation); every handler start / end / Schedule is appended to one mutex-protected log (atomic logical " +
 			"clock). Directed: 40 sibling secondaries each scheduling a same-instant primary (the known corner), same-instant chains " +
-			"primary->secondary->primary, empty and single-event runs. Non-trivial: >= 3 events and some same-instant Schedule call. " +
+			"primary->secondary->primary, empty and single-event runs; a controller goroutine that pauses the engine (before Run, observed blocked on the pause lock; or at arbitrary moments of a long run), schedules primaries/secondaries at CurrentTime() and continues; lone secondaries that schedule a primary and a further secondary for their own instant. Non-trivial: >= 3 events and some same-instant Schedule call. " +
 			"Distinct = distinct input hash.",
 		Gen: gen, Run: run, Shrink: shrink,
 	})
